@@ -9,6 +9,7 @@ import (
 	"strings"
 	"testing"
 
+	"github.com/gauss-project/aurorafs/pkg/crypto"
 	"github.com/gauss-project/aurorafs/pkg/keystore"
 	"github.com/gauss-project/aurorafs/pkg/keystore/file"
 	"github.com/gauss-project/aurorafs/pkg/keystore/mem"
@@ -295,6 +296,11 @@ func run(r *evid.Rec, c kase) (f *failure, flags map[string]bool) {
 			}
 			name := present[mod(o.N, len(present))]
 			k := keys[mod(o.B, len(keys))]
+			if o.B >= 4 {
+				// a key the user brings along: scalars at the edges of the 32-byte encoding
+				k = boundaryKey(o.B - 4)
+				r.Class("importpk:user-supplied-boundary-scalar")
+			}
 			pw := pwOf(o, name)
 			f = guard(step, func() *failure {
 				e := model[name]
@@ -444,9 +450,40 @@ func genCase(t *rapid.T, store string, minOps, maxOps int) kase {
 		o.Right = rapid.IntRange(0, 2).Draw(t, "right") > 0
 		o.P = rapid.IntRange(0, 2).Draw(t, "p")
 		o.B = rapid.IntRange(0, 3).Draw(t, "b")
+		if o.K == "importpk" && rapid.Bool().Draw(t, "ownkey") {
+			o.B = 4 + rapid.IntRange(0, 5).Draw(t, "scalar")
+		}
 		c.Ops = append(c.Ops, o)
 	}
 	return c
+}
+
+// boundaryKey builds a valid secp256k1 private key from a scalar chosen for its encoding: 1, one
+// byte, 31 bytes (just below 2^248: the 32-byte form starts with a zero byte), exactly 2^248, and
+// two full-width values.
+func boundaryKey(i int) *ecdsa.PrivateKey {
+	b := make([]byte, 32)
+	switch mod(i, 6) {
+	case 0:
+		b[31] = 1
+	case 1:
+		b[31] = 0xff
+	case 2:
+		for k := 1; k < 32; k++ {
+			b[k] = 0xff
+		}
+	case 3:
+		b[0] = 1
+	case 4:
+		b[0], b[31] = 0x7f, 0x35
+	default:
+		b[1], b[17] = 0x80, 0x01 // 2^247 + ...: 31 significant bytes
+	}
+	k, err := crypto.DecodeSecp256k1PrivateKey(b)
+	if err != nil {
+		panic(err)
+	}
+	return k
 }
 
 func record(r *evid.Rec, c kase, flags map[string]bool) {
@@ -488,7 +525,7 @@ func isASCII(s string) bool {
 	return true
 }
 
-const rule = "rapid histories over one keystore (file store in a fresh temp dir | in-memory store): 1..3 names (pool incl. '', '.', '..', spaces, dots, unicode; or random filename-safe strings; never a path separator) x 2..3 passwords (pool incl. empty, unicode, NUL, trailing-space and case variants, 1120-char; or random unicode) x ops Key(name, stored|other password), Exists, and for the file store ExportKey, ImportKey(exported blob into any existing name), ImportPrivateKey, reopen; final audit Key(name, stored password) for every name after reopening. Oracle: map model name -> (key, password). Non-trivial = the history contains a wrong-password attempt or an export/import; distinct by hash of the case"
+const rule = "rapid histories over one keystore (file store in a fresh temp dir | in-memory store): 1..3 names (pool incl. '', '.', '..', spaces, dots, unicode; or random filename-safe strings; never a path separator) x 2..3 passwords (pool incl. empty, unicode, NUL, trailing-space and case variants, 1120-char; or random unicode) x ops Key(name, stored|other password), Exists, and for the file store ExportKey, ImportKey(exported blob into any existing name), ImportPrivateKey (a key seen earlier, or a user-supplied key whose scalar is 1, one byte, 31 bytes, 2^248 or full width), reopen; final audit Key(name, stored password) for every name after reopening. Oracle: map model name -> (key, password). Non-trivial = the history contains a wrong-password attempt or an export/import; distinct by hash of the case"
 
 func check(t *testing.T, r *evid.Rec, c kase) {
 	f, flags := run(r, c)
